@@ -35,17 +35,17 @@ Proof.
   destruct (seg_head t (Some 0) 1 W) as (x & tl & E & _). rewrite E. discriminate.
 Qed.
 
-Lemma multi_result : forall (bs later : blobs) (hs : list header) (st : str) (ks : list mime),
+Lemma multi_result : forall (faults : list bool) (bs later : blobs) (hs : list header) (st : str) (ks : list mime),
   wf_kids ks = true ->
   kept_hdrs hs st <> [] ->
-  roundtrip hash bs (mk_msg hs (Multipart st ks)) later
+  roundtrip hash faults bs (mk_msg hs (Multipart st ks)) later
   = Some (mk_msg (map out_hdr (kept_hdrs hs st) ++ [(S_ "MIME-Version", S_ " 1.0")])
                  (Multipart (to_lower st) (map tmap ks))).
 Proof.
-  intros bs later hs st ks W HK.
+  intros faults bs later hs st ks W HK.
   unfold roundtrip, store, parse_msg. cbn [m_body m_hdrs].
   set (P := container_part None st :: segs 0 1 ks).
-  destruct (store_parts hash bs [] P []) as [bs' rows'] eqn:SP.
+  destruct (store_parts hash faults bs [] P []) as [bs' rows'] eqn:SP.
   apply store_parts_inline in SP as (ext & new & -> & -> & Hn).
   specialize (Hn later). cbn [app].
   set (bsF := (bs ++ ext) ++ later) in *.
